@@ -140,7 +140,8 @@ def build(kind, n, b, seed):
     elif kind == "obs_rows":
         pin = jnp.arange(n, dtype=float)[:, None] * 0.5 - 1.0
         val = jnp.stack([jnp.arange(n, dtype=float) * 3.0 + 0.25, -jnp.arange(n, dtype=float)], axis=1)
-        g = jinns.data.DataGeneratorObservations(k, b, pin, val)
+        # observed equation parameters belong to the row too (given as (n,) : the loader adds the axis)
+        g = jinns.data.DataGeneratorObservations(k, b, pin, val, {"nu": jnp.arange(n, dtype=float) * 7.0 + 100.0})
         acc = []  # handled specially (index store)
     elif kind == "param_samples":
         g = jinns.data.DataGeneratorParameter(k, n, b, param_ranges={"nu": (0.5, 2.0)},
@@ -223,7 +224,8 @@ def _run_obs(case, g, labels):
     """Observation loader: the store is the user's table, permuted through an index vector."""
     n, b, calls = case["n"], case["b"], case["calls"]
     pin0, val0 = _np(g.observed_pinn_in).copy(), _np(g.observed_values).copy()
-    rows = np.concatenate([pin0, val0], axis=1)
+    nu0 = _np(g.observed_eq_params["nu"]).reshape(n, 1).copy()
+    rows = np.concatenate([pin0, val0, nu0], axis=1)
     m = EpochModel(rows, b)
     prev_idx_vec, prev_key, prev_cur = _np(g.indices).copy(), _keydata(g.key), int(g.curr_idx)
     for _ in range(calls):
@@ -235,7 +237,7 @@ def _run_obs(case, g, labels):
             return fail("index-vector-not-a-permutation", {"indices": iv.tolist()}, labels=labels)
         reshuffled = (not np.array_equal(iv, prev_idx_vec)) or kd != prev_key
         prev_idx_vec, prev_key, prev_cur = iv.copy(), kd, cur
-        served = np.concatenate([_np(batch["pinn_in"]), _np(batch["val"])], axis=1)
+        served = np.concatenate([_np(batch["pinn_in"]), _np(batch["val"]), _np(batch["eq_params"]["nu"]).reshape(-1, 1)], axis=1)
         r = m.observe(rows, served, reshuffled)
         if r is not None:
             return fail(r[0], dict(r[1], store="obs", kind="obs_rows"), labels=labels)
